@@ -14,7 +14,10 @@ R1.4  a shortcut that releases the whole buffer while waiting for a delimiter fi
 R1.5  that shortcut measures the pending tail from the last line break, not from an
       earlier one;
 R1.6  the scan that decides how much to hold back covers every byte the delimiter search
-      covers.
+      covers;
+R1.7  when no delimiter was found, what is deleted from the buffer reaches at least to the
+      start of the returned payload (the line break skipped in front of a part body is
+      consumed together with the decision to skip it).
 """
 
 from __future__ import annotations
@@ -30,11 +33,11 @@ from ..loader import AnalysisError, AnchorMissing, ClassInfo, FuncInfo, dotted, 
 from ..report import Ctx
 from ._c01_helpers import (
     PLACEHOLDER, SAMPLE_N, Aff, AffEval, Lang, Lin, NotAffine, Roles, SearchSite, Typestate, fit, fmt_off,
-    self_call_closure, strip_max0, windowed_searches,
+    anchor_summary, bind_args, self_call_closure, strip_max0, windowed_searches,
 )
 
 LEVEL_TEXT = (
-    "Static decision of six structural clauses of C01 on /repo's current source, with the boundary symbolic (any length >= 1) "
+    "Static decision of seven structural clauses of C01 on /repo's current source, with the boundary symbolic (any length >= 1) "
     "and delimiters without trailing blanks: (R1.1) wherever MultipartDecoder.next_event searches the buffer from a saved "
     "offset, every window `len(buffer) - K` that can reach that search has K >= the longest proper prefix of a word of the "
     "pattern searched there in which the pattern does not match yet (what a failed search can leave at the end of the buffer), "
@@ -47,20 +50,24 @@ LEVEL_TEXT = (
     "the longest incomplete prefix of the delimiter language (folded from boundary_re) that is consistent with what the "
     "branch knows about the buffer; (R1.5) the position that guard measures from, read off the shape of the anchor helper "
     "(min/max of last-index-of-byte terms), is not before the last line-break byte; (R1.6) the hold-back scan starts no "
-    "later than the delimiter search. R1.4-R1.6 report a violation only when every condition guarding the release is one "
+    "later than the delimiter search; (R1.7) on every return of _parse_data that continues the part (deleted prefix = hold-back position or whole "
+    "buffer) `deleted prefix - payload start` has a lower bound >= 0 as an affine expression over len(buffer) >= match positions >= 0, "
+    "anchor results >= 0 (or >= -1 for an rfind-style anchor) and len(boundary) >= 1, so the line break skipped in front of a part body never "
+    "stays in the buffer to be read again as payload. A window assignment that sits in a private helper is read per call site with the helper's "
+    "parameters replaced by the call's arguments. R1.4-R1.7 report a violation only when every condition guarding the release is one "
     "they model (boundary-text presence tests, the start flag, match tests, the threshold) and otherwise stop with "
     "ANALYSIS-ERROR. It decides these clauses on all paths. It does NOT decide the equality of event streams itself: "
     "that the hold-back position is the right cut for every mixture of CR and LF in the payload beyond R1.5/R1.6, the "
-    "consumption of the line break that opens a part body beyond R1.6, header parsing, and the size limits are out of scope."
+    "consumption of the line break that opens a part body beyond R1.6/R1.7, header parsing, and the size limits are out of scope."
 )
 TRUSTED = [
     "CPython ast and re._parser (pattern syntax trees, widths)",
     "re semantics: Pattern.search(buf, pos) finds the leftmost match starting at or after pos; a negative pos is clamped to 0",
-    "bytes.rindex(c) is the last index of c and raises ValueError when absent; bytes.find returns -1 when absent",
+    "bytes.rindex(c) is the last index of c and raises ValueError when absent; bytes.rfind(c) is the same index or -1 when absent; bytes.find returns -1 when absent",
     "the re engine run on a pattern folded from the source against prefixes enumerated from that same pattern",
 ]
 ASSUMPTIONS = [
-    "the hold-back anchor helper is read as written: min/max over `x.rindex(c)` (len(x) when absent) or `x.rfind(c)` terms; any other shape stops R1.5/R1.6 with ANALYSIS-ERROR",
+    "the hold-back anchor helper is summarised extensionally: its CFG is walked once per order type of its argument (which line-break bytes occur and in which order their last occurrences come) over the values {-1, last index of a byte, len(argument)}, interpreting only order comparisons, min/max and selection; the results must equal min/max over `last index of c, or len / -1 when c is absent` terms (rindex + except ValueError, rfind + test for -1, conditional expressions, walrus, comparing two positions by hand are all read this way); anything else (arithmetic, loops, slices) stops R1.5-R1.7 with ANALYSIS-ERROR",
     "delimiters carry no trailing blanks (the unbounded run [^\\S\\n\\r]* is taken as empty), as in the property's domain",
     "the boundary contains no line break and is not empty",
     "after an exception the decoder is not used again (raising exits are not followed)",
@@ -78,6 +85,7 @@ RULES = {
     "R1.4": "releasing the whole buffer while waiting for a delimiter requires pending tail > T with T >= longest incomplete delimiter possible in that branch",
     "R1.5": "the early-release guard measures the pending tail from the last line-break byte, not from an earlier one",
     "R1.6": "the hold-back scan covers every byte covered by the delimiter search",
+    "R1.7": "when no delimiter was found, the prefix deleted from the buffer reaches at least to the start of the returned payload",
 }
 
 
@@ -232,35 +240,78 @@ def start_only_feeds_uncompared(repo, site: SearchSite) -> tuple[bool, str]:
 def rules_offset(ctx: Ctx, roles: Roles, pats: Patterns, folder: Folder) -> None:
     repo = ctx.repo
     evals: dict[str, AffEval] = {}
-    windows: dict[str, tuple[FuncInfo, ast.AST, Lin]] = {}
+    windows: dict[str, tuple[FuncInfo, ast.AST, Lin, str]] = {}
 
     def ev_of(fi: FuncInfo) -> AffEval:
         if fi.qualname not in evals:
             evals[fi.qualname] = AffEval(fi, folder, {f"self.{roles.buffer}"}, pats.nattr)
         return evals[fi.qualname]
 
-    def window_of(fi: FuncInfo, value: ast.AST, node: Node) -> str | None:
-        ev = ev_of(fi)
+    def window_of(fi: FuncInfo, value: ast.AST, node: Node, key: str, stack: tuple = ()) -> str | None:
+        """`len(buffer) - K` with K affine in the boundary length, computed after a search -> text of that search's pattern.
+
+        When the assignment sits in a private helper, the helper's parameters are replaced by the arguments of the call
+        that is being followed (one level per frame of the call stack), and the search is looked for in the callers too."""
+        value = strip_max0(value)
+        at = node
+        if isinstance(value, ast.Name):
+            # `p = len(buffer) - K` ... `if p < 0: p = 0` ... `offset = p`: the bindings other than the constant 0 (always a valid
+            # offset) must be one window expression, read where it was computed
+            rd0 = ev_of(fi).rd
+            defs = rd0.reaching(node, value.id)
+            nz = [d for d in defs if not (isinstance(d.value, ast.Constant) and d.value.value == 0 and not isinstance(d.value.value, bool))]
+            if len(defs) > 1 and len(nz) == 1 and all(d.kind == "assign" and d.index is None and d.node is not None for d in defs):
+                d0 = nz[0]
+                if all(rd0.reaching(d0.node, x.id) == rd0.reaching(node, x.id) for x in ast.walk(d0.value) if isinstance(x, ast.Name) and x.id != value.id):
+                    value, at = strip_max0(d0.value), d0.node
         try:
-            a = ev.aff(strip_max0(value), node)
+            a = ev_of(fi).aff(value, at)
         except NotAffine:
             return None
+        chain: list[tuple[FuncInfo, Node]] = [(fi, node)]
+        frames = list(stack)
+        via = ""
+        cur_fi, cur_node = fi, at
+        while frames:
+            names = [s for s in a.coef if s.startswith("name:")]
+            if not names:
+                break
+            caller, call, cnode = frames.pop()
+            binding = bind_args(cur_fi, call)
+            rd = ev_of(cur_fi).rd
+            for s in names:
+                p = s[5:]
+                defs = rd.reaching(cur_node, p)
+                if binding is None or p not in binding or p not in cur_fi.params or not defs or any(d.kind != "param" for d in defs):
+                    return None
+                try:
+                    sub = ev_of(caller).aff(strip_max0(binding[p]), cnode)
+                except NotAffine:
+                    return None
+                if "D" in sub.coef and any(ts._buffer_effect_node(x) == "shift" for x in walk_no_nested(cur_fi.node) if is_self_attr(x, roles.buffer)):
+                    return None  # the buffer length the caller measured is not the one the helper stores against
+                a = a.subst(s, sub)
+            via += f" called as `{norm(call)}` ({caller.loc(call)})"
+            cur_fi, cur_node = caller, cnode
+            chain.append((caller, cnode))
         if a.coef.get("D") != 1 or not a.only({"D", "n"}):
             return None
-        cfg = cfg_of(fi)
-        doms = []
-        for c, _, _ in windowed_searches(fi):
-            sn = cfg.node_of(c)
-            if sn is not None and cfg.node_dominates(sn, node):
-                doms.append((sn, c))
-        if not doms:
-            return None
-        # nearest dominating search: the one dominated by all the others
-        near = [c for sn, c in doms if all(cfg.node_dominates(o, sn) for o, _ in doms)]
-        if len(near) != 1:
-            return None
-        windows[stmt_key(fi, node.ast)] = (fi, node.ast, Lin(-a.coef.get("n", 0), -a.const))  # type: ignore[arg-type]
-        return norm(near[0].func.value)  # type: ignore[attr-defined]
+        # nearest search that dominates the assignment, in the function itself or else in the callers being followed
+        for lfi, lnode in chain + [(f, n) for f, _, n in reversed(frames)]:
+            cfg = cfg_of(lfi)
+            doms = []
+            for c, _, _ in windowed_searches(lfi):
+                sn = cfg.node_of(c)
+                if sn is not None and cfg.node_dominates(sn, lnode):
+                    doms.append((sn, c))
+            if not doms:
+                continue
+            near = [c for sn, c in doms if all(cfg.node_dominates(o, sn) for o, _ in doms)]
+            if len(near) != 1:
+                return None
+            windows[key] = (fi, node.ast, Lin(-a.coef.get("n", 0), -a.const), via)  # type: ignore[arg-type]
+            return norm(near[0].func.value)  # type: ignore[attr-defined]
+        return None
 
     ts = Typestate(repo, roles, window_of)
     ts.run()
@@ -310,10 +361,10 @@ def rules_offset(ctx: Ctx, roles: Roles, pats: Patterns, folder: Folder) -> None
             if off[0] != "W" or off[1] in seen or off[3] != rx_txt:
                 continue
             seen.add(off[1])
-            wfi, wst, K = windows[off[1]]
+            wfi, wst, K, via = windows[off[1]]
             n11 += 1
             ctx.ob("R1.1", f"{site.fi.qualname}: window kept after a failed `{rx_txt}` search covers a straddling match", K.ge(need),
-                   f"`{norm(wst)}` keeps K = {K} byte(s); the longest prefix of a `{rx_txt}` match (max width {w}; blank runs empty, n = len(boundary)) that does not match yet"
+                   f"`{norm(wst)}`{via} keeps K = {K} byte(s); the longest prefix of a `{rx_txt}` match (max width {w}; blank runs empty, n = len(boundary)) that does not match yet"
                    + (f", not counting its optional leading part of up to {o} byte(s) ({allow_why})," if o else "") + f" is {need} byte(s), e.g. {example!r} for boundary {pats.boundary(0)!r}; needs K >= {need}",
                    wfi, wst, f"window for {rx_txt}")
             if any(l.blank_runs for l in langs):
@@ -448,20 +499,32 @@ def rules_feed(ctx: Ctx, roles: Roles) -> None:
 def rule_chunker(ctx: Ctx, fi: FuncInfo) -> None:
     cfg = cfg_of(fi)
     rd = ReachingDefs(cfg, fi.params)
+    # reads: a local bound (by assignment or by a walrus) to the result of calling a parameter
     reads = []
-    for n in walk_no_nested(fi.node):
-        if isinstance(n, ast.Assign) and len(n.targets) == 1 and isinstance(n.targets[0], ast.Name) and isinstance(n.value, ast.Call) and isinstance(n.value.func, ast.Name) and n.value.func.id in fi.params:
-            reads.append(n)
+    for n in cfg.nodes:
+        for d in rd.gen[n.id]:
+            if d.kind in ("assign", "walrus") and d.index is None and isinstance(d.value, ast.Call) and isinstance(d.value.func, ast.Name) \
+                    and d.value.func.id in fi.params and all(x.kind == "param" for x in rd.reaching(n, d.value.func.id)):
+                reads.append(d)
     ctx.floor("R1.3", f"read calls in {fi.qualname}", len(reads), 1)
     yields = [n for n in walk_no_nested(fi.node) if isinstance(n, ast.Yield)]
     end_yields = [y for y in yields if y.value is None or (isinstance(y.value, ast.Constant) and y.value.value is None)]
     data_yields = [y for y in yields if y not in end_yields]
     ynodes = [cfg.node_of(y) for y in data_yields]
     enodes = [cfg.node_of(y) for y in end_yields]
-    for rdn in reads:
-        rnode = cfg.node_of(rdn)
+
+    def unwalrus(e: ast.AST) -> ast.AST:
+        return e.target if isinstance(e, ast.NamedExpr) else e
+
+    for rdef in reads:
+        rnode = rdef.node
         assert rnode is not None
-        v = rdn.targets[0].id
+        v = rdef.name
+
+        def value_tested(tn: Node) -> frozenset:
+            """definitions of v whose value a test in tn sees: a walrus in the test itself binds before the comparison"""
+            return rd.after(tn, v) if any(d.name == v and d.kind == "walrus" for d in rd.gen[tn.id]) else rd.reaching(tn, v)
+
         # emptiness edges of tests on the read result
         empties = []
         others = []
@@ -469,31 +532,48 @@ def rule_chunker(ctx: Ctx, fi: FuncInfo) -> None:
             a = tn.ast
             if tn.kind != "test" or not any(isinstance(x, ast.Name) and x.id == v for x in ast.walk(a)):
                 continue
-            if not all(d.node is rnode for d in rd.reaching(tn, v)):
+            if not all(d.node is rnode for d in value_tested(tn)):
                 continue
+            a = unwalrus(a)
             if isinstance(a, ast.Name):
                 empties.append((tn, "F"))
-            elif isinstance(a, ast.Compare) and len(a.ops) == 1 and isinstance(a.ops[0], (ast.Eq, ast.NotEq)) and (
-                (norm(a.left) == f"len({v})" and isinstance(a.comparators[0], ast.Constant) and a.comparators[0].value == 0)
-                or (norm(a.left) == v and isinstance(a.comparators[0], ast.Constant) and a.comparators[0].value == b"")
-            ):
-                empties.append((tn, "T" if isinstance(a.ops[0], ast.Eq) else "F"))
-            else:
-                others.append(tn)
+                continue
+            if isinstance(a, ast.Compare) and len(a.ops) == 1 and isinstance(a.ops[0], (ast.Eq, ast.NotEq, ast.Gt, ast.Lt, ast.GtE, ast.LtE)):
+                lhs, rhs, op = unwalrus(a.left), unwalrus(a.comparators[0]), type(a.ops[0])
+                if isinstance(lhs, ast.Constant):  # 0 == len(x)  /  0 < len(x)
+                    lhs, rhs = rhs, lhs
+                    op = {ast.Gt: ast.Lt, ast.Lt: ast.Gt, ast.GtE: ast.LtE, ast.LtE: ast.GtE}.get(op, op)
+                if isinstance(lhs, ast.Call) and isinstance(lhs.func, ast.Name) and lhs.func.id == "len" and len(lhs.args) == 1:
+                    is_len, lhs = True, unwalrus(lhs.args[0])
+                else:
+                    is_len = False
+                c = rhs.value if isinstance(rhs, ast.Constant) else None
+                if isinstance(lhs, ast.Name) and lhs.id == v:
+                    # edge on which the read was empty
+                    lab = None
+                    if (is_len and c == 0 and not isinstance(c, bool)) or (not is_len and c == b""):
+                        lab = {ast.Eq: "T", ast.NotEq: "F", ast.Gt: "F", ast.LtE: "T"}.get(op) if is_len else {ast.Eq: "T", ast.NotEq: "F"}.get(op)
+                    elif is_len and c == 1 and not isinstance(c, bool):
+                        lab = {ast.Lt: "T", ast.GtE: "F"}.get(op)
+                    if lab is not None:
+                        empties.append((tn, lab))
+                        continue
+            others.append(tn)
         unmod = bool(data_yields) and all(
             isinstance(y.value, ast.Name) and y.value.id == v and all(d.node is rnode for d in rd.reaching(cfg.node_of(y), v)) for y in data_yields  # type: ignore[arg-type]
         )
         # from the read, without passing a data yield or an "it was empty" edge: reading again, or finishing, drops the chunk
         r1 = cfg.reach(rnode, avoid_nodes=[n for n in ynodes if n is not None], avoid_edges=empties)
         dropped = cfg.exit.id in r1 or any(s is rnode for nid in r1 for s, _ in cfg.nodes[nid].succs)
+        where = rdef.stmt or rdef.value
         ctx.ob("R1.3", f"{fi.qualname}: every non-empty read is yielded unmodified", unmod and not dropped,
-               f"data yields {[norm(y) for y in data_yields]} yield the result of `{norm(rdn.value)}` unchanged: {unmod}; a non-empty read can be dropped: {dropped}",
-               fi, rdn, "reads yielded")
+               f"data yields {[norm(y) for y in data_yields]} yield the result of `{norm(rdef.value)}` unchanged: {unmod}; a non-empty read can be dropped: {dropped}",
+               fi, where, "reads yielded")
         r2 = cfg.reach(rnode, avoid_edges=empties)
         early = cfg.exit.id in r2
         ctx.ob("R1.3", f"{fi.qualname}: reading stops only on an empty read (a short read is not the end)", not early,
                f"emptiness tests {[norm(tn.ast) for tn, _ in empties]}; other tests on the read result {[norm(tn.ast) for tn in others]}; "
-               f"the generator can finish without an empty read: {early}", fi, (others[0].ast if others and early else rdn), "stop on empty read only")
+               f"the generator can finish without an empty read: {early}", fi, (others[0].ast if others and early else where), "stop on empty read only")
     ends_ok = bool(enodes) and cfg.all_paths_pass(cfg.entry, [cfg.exit], [n for n in enodes if n is not None])
     after = set()
     for en in enodes:
@@ -543,7 +623,8 @@ class Splitter:
         if any(d.name == self.data for ds in self.rd.gen.values() for d in ds):
             raise AnalysisError(f"{self.fi.qualname}: parameter `{self.data}` (the buffer) is rebound inside the function: not modelled")
         # release expressions
-        self.release: list[tuple[ast.Return, str, ast.AST | None]] = []
+        self.release: list[tuple[ast.Return, str, ast.AST | None, ast.AST | None]] = []
+        self.items: list[dict[str, t.Any]] = []  # every classified release position
         stop: set[str] = set()
         for r in self.returns:
             payload, deleted = r.value.elts[0], r.value.elts[1]  # type: ignore[attr-defined]
@@ -551,8 +632,8 @@ class Splitter:
                 payload = payload.args[0]
             if not (isinstance(payload, ast.Subscript) and norm(payload.value) in self.buffers and isinstance(payload.slice, ast.Slice) and payload.slice.step is None):
                 raise AnalysisError(f"{self.fi.loc(r)}: payload `{norm(payload)}` is not a slice of the buffer")
-            self.release.append((r, "payload end", payload.slice.upper))
-            self.release.append((r, "deleted prefix", deleted))
+            self.release.append((r, "payload end", payload.slice.upper, payload.slice.lower))
+            self.release.append((r, "deleted prefix", deleted, payload.slice.lower))
             for e in (payload.slice.upper, deleted):
                 if isinstance(e, ast.Name):
                     stop.add(e.id)
@@ -606,11 +687,11 @@ class Splitter:
             if m is not None:
                 return {"kind": "HOLD", "anchor": m, "call": o, "aff": a}
         if a.only({"D", "n"}) and a.coef.get("D") == 1:
-            return {"kind": "TAIL", "k": Lin(-a.coef.get("n", 0), -a.const)}
+            return {"kind": "TAIL", "k": Lin(-a.coef.get("n", 0), -a.const), "aff": a}
         raise AnalysisError(f"{self.fi.loc(value)}: release position `{norm(value)}` is neither a match position, a hold-back anchor nor the end of the buffer")
 
     def _classify_all(self) -> None:
-        for r, what, e in self.release:
+        for r, what, e, lower in self.release:
             rn = self.cfg.node_of(r)
             assert rn is not None
             items: list[tuple[ast.AST | None, Node, ast.AST]] = []
@@ -623,7 +704,8 @@ class Splitter:
                 items.append((e, rn, r))
             for value, node, stmt in items:
                 c = self.classify(value, node)
-                c.update(stmt=stmt, node=node, what=what)
+                c.update(stmt=stmt, node=node, what=what, ret=r, lower=lower, value=value)
+                self.items.append(c)
                 if c["kind"] == "MATCH":
                     self.n_match += 1
                     self.delims[norm(c["regex"])] = c["regex"]
@@ -733,6 +815,71 @@ class Splitter:
             return None
         return {"var": var, "teff": teff, "test": a, "anchors": anchors}
 
+    # -- R1.7: deleted prefix vs payload start -----------------------------------------
+    def is_buffer_index(self, name: str, node: Node) -> bool:
+        """every binding of the local visible at node is 0 or a position of a match found in the buffer (0 <= v <= len(buffer))"""
+        defs = self.rd.reaching(node, name)
+        if not defs:
+            return False
+
+        def uncast(v: ast.AST) -> ast.AST:
+            while isinstance(v, ast.Call) and (dotted(v.func) or "").endswith("cast") and len(v.args) == 2:
+                v = v.args[1]
+            return v
+
+        def position(v: ast.AST, at: Node) -> bool:
+            v = uncast(v)
+            if isinstance(v, ast.IfExp):
+                return position(v.body, at) and position(v.orelse, at)
+            if isinstance(v, ast.Constant) and isinstance(v.value, int) and not isinstance(v.value, bool) and v.value == 0:
+                return True
+            if isinstance(v, ast.Call) and isinstance(v.func, ast.Attribute) and v.func.attr in ("start", "end") and not v.args:
+                inner = uncast(v.func.value)
+                if isinstance(inner, ast.NamedExpr):
+                    inner = uncast(inner.value)
+                srcs = [inner]
+                if isinstance(inner, ast.Name):
+                    srcs = [uncast(d.value) for d in self.rd.reaching(at, inner.id) if d.value is not None and d.index is None]
+                    if len(srcs) != len(self.rd.reaching(at, inner.id)):
+                        return False
+                return bool(srcs) and all(
+                    isinstance(dv, ast.Call) and isinstance(dv.func, ast.Attribute) and dv.func.attr in ("match", "search", "fullmatch") and bool(dv.args) and norm(dv.args[0]) in self.buffers
+                    for dv in srcs)
+            return False
+
+        return all(d.kind in ("assign", "walrus") and d.value is not None and d.index is None and d.node is not None and position(d.value, d.node) for d in defs)
+
+    def lower_bound(self, diff: Aff, node: Node, ev: AffEval) -> tuple[int | None, str]:
+        """a lower bound of an affine expression over: n >= 1, len(buffer) >= every buffer position >= 0, anchor calls >= 0
+        (or -1).  None = not bounded below by a constant (a buffer position is subtracted and nothing balances it); shapes
+        outside this vocabulary raise NotAffine."""
+        lb = diff.const
+        neg_index = 0
+        for sym, k in diff.coef.items():
+            if sym == "n":
+                if k < 0:
+                    return None, "it shrinks with the boundary length"
+                lb += k
+            elif sym == "D":
+                if k < 0:
+                    raise NotAffine("the buffer length is subtracted")
+            elif sym.startswith("name:"):
+                if not self.is_buffer_index(sym[5:], node):
+                    raise NotAffine(f"`{sym[5:]}` is not bound to 0 or a match position in the buffer on every path")
+                if k < 0:
+                    neg_index += -k
+            elif sym.startswith("op:"):
+                afi = self._anchor_call(ev.opaque.get(sym))  # type: ignore[arg-type]
+                summ = anchor_summary(afi) if afi is not None else None
+                if summ is None or k < 0:
+                    raise NotAffine(f"`{sym[3:]}` has no modelled bound")
+                lb += k * (0 if all(kind == "end" for kind, _ in summ[1]) else -1)
+            else:
+                raise NotAffine(f"symbol {sym}")
+        if neg_index > diff.coef.get("D", 0):
+            return None, "a position in the buffer is subtracted and neither the scanned region nor the buffer length balances it"
+        return lb, ""
+
     def callsite_unknown(self) -> list[str]:
         """guards on the calls of the splitter other than protocol-state tests"""
         out = []
@@ -747,52 +894,6 @@ class Splitter:
                     continue
                 out.append(f"`{tn.text()}` at {f.loc(a)}")
         return out
-
-
-def anchor_summary(fi: FuncInfo) -> tuple[str, list[tuple[str, int]]] | None:
-    """shape of a hold-back anchor function: ("min"|"max"|"one", [(absent-value, byte), ...]) or None.
-
-    term = the last index of one byte in the (only) parameter, with a fallback when absent:
-    ``x.rindex(c)`` under ``except ValueError: v = len(x)`` -> ("end", c);  ``x.rfind(c)`` -> ("-1", c)."""
-    cfg = cfg_of(fi)
-    rd = ReachingDefs(cfg, fi.params)
-    rets = astq.returns_of(fi.node)
-    params = [p for p in fi.params if p != "self"]
-    if len(rets) != 1 or len(params) != 1 or rets[0].value is None:
-        return None
-    p = params[0]
-    rn = cfg.node_of(rets[0])
-    v = rets[0].value
-    if isinstance(v, ast.Call) and isinstance(v.func, ast.Name) and v.func.id in ("min", "max") and not v.keywords:
-        comb, args = v.func.id, list(v.args)
-    else:
-        comb, args = "one", [v]
-    terms = []
-    for a in args:
-        if not isinstance(a, ast.Name) or rn is None:
-            return None
-        last, fallback = [], []
-        for d in rd.reaching(rn, a.id):
-            val = d.value
-            if d.kind != "assign" or val is None:
-                return None
-            if isinstance(val, ast.Call) and isinstance(val.func, ast.Attribute) and val.func.attr in ("rindex", "rfind") and norm(val.func.value) == p and len(val.args) == 1 \
-                    and isinstance(val.args[0], ast.Constant) and isinstance(val.args[0].value, bytes) and len(val.args[0].value) == 1:
-                last.append((val.func.attr, val.args[0].value[0], d))
-            elif norm(val) == f"len({p})" and isinstance(astq.enclosing(d.stmt, (ast.ExceptHandler,)), ast.ExceptHandler):
-                fallback.append(d)
-            else:
-                return None
-        if len(last) != 1:
-            return None
-        kind, byte, _ = last[0]
-        if kind == "rindex" and len(fallback) >= 1:
-            terms.append(("end", byte))
-        elif kind == "rfind" and not fallback:
-            terms.append(("-1", byte))
-        else:
-            return None
-    return comb, terms
 
 
 def rules_splitter(ctx: Ctx, roles: Roles, pats: Patterns, folder: Folder) -> None:
@@ -879,6 +980,11 @@ def rules_splitter(ctx: Ctx, roles: Roles, pats: Patterns, folder: Folder) -> No
         call: ast.Call = h["call"]
         node = h["node"]
         region = call.args[0] if call.args else None
+        if isinstance(region, ast.Name) and region.id not in sp.buffers:
+            # `tail = data[k:]` ... `anchor(tail)`: read the region through the alias (same bindings at both places)
+            d1 = sp.ev_open.single_def(region.id, node)
+            if d1 is not None:
+                region = d1.value
         lows: list[tuple[str, ast.AST | None, Node | None]] = []
         if region is not None and norm(region) in sp.buffers:
             lows.append(("0", None, None))
@@ -888,31 +994,42 @@ def rules_splitter(ctx: Ctx, roles: Roles, pats: Patterns, folder: Folder) -> No
             if lo is None or (isinstance(lo, ast.Constant) and lo.value == 0):
                 lows.append(("0", None, None))
             elif isinstance(lo, ast.Name):
-                for d in sp.rd.reaching(node, lo.id):
-                    if d.kind != "assign" or d.value is None or d.node is None:
-                        raise AnalysisError(f"{fi.loc(call)}: start of the hold-back scan `{lo.id}` is bound by `{d.kind}`: not modelled")
-                    v = d.value
+                def uncast(v: ast.AST) -> ast.AST:
                     while isinstance(v, ast.Call) and (dotted(v.func) or "").endswith("cast") and len(v.args) == 2:
                         v = v.args[1]
-                    if isinstance(v, ast.Constant) and v.value == 0:
+                    return v
+
+                def scan_starts(v: ast.AST, d) -> None:
+                    """0, or the end of a match anchored at the start of the buffer; both arms of a conditional expression"""
+                    v = uncast(v)
+                    if isinstance(v, ast.IfExp):
+                        scan_starts(v.body, d)
+                        scan_starts(v.orelse, d)
+                        return
+                    if isinstance(v, ast.Constant) and v.value == 0 and not isinstance(v.value, bool):
                         lows.append(("0", d.stmt, d.node))
-                        continue
+                        return
                     src = None
-                    if isinstance(v, ast.Call) and isinstance(v.func, ast.Attribute) and v.func.attr == "end":
-                        inner = v.func.value
-                        while isinstance(inner, ast.Call) and (dotted(inner.func) or "").endswith("cast") and len(inner.args) == 2:
-                            inner = inner.args[1]
+                    if isinstance(v, ast.Call) and isinstance(v.func, ast.Attribute) and v.func.attr == "end" and not v.args:
+                        inner = uncast(v.func.value)
+                        if isinstance(inner, ast.NamedExpr):
+                            inner = uncast(inner.value)
                         if isinstance(inner, ast.Name):
                             ds = sp.rd.reaching(d.node, inner.id)
-                            if len(ds) == 1:
-                                dv = next(iter(ds)).value
-                                if isinstance(dv, ast.Call) and isinstance(dv.func, ast.Attribute) and dv.func.attr == "match" and dv.args and norm(dv.args[0]) in sp.buffers:
-                                    src = dv
+                            if len(ds) == 1 and next(iter(ds)).index is None and next(iter(ds)).value is not None:
+                                inner = uncast(next(iter(ds)).value)
+                        if isinstance(inner, ast.Call) and isinstance(inner.func, ast.Attribute) and inner.func.attr == "match" and inner.args and norm(inner.args[0]) in sp.buffers:
+                            src = inner
                     if src is None:
-                        raise AnalysisError(f"{fi.loc(call)}: start of the hold-back scan `{norm(d.value)}` is not modelled")
+                        raise AnalysisError(f"{fi.loc(call)}: start of the hold-back scan `{norm(v)}` is not modelled")
                     lang = pats.langs(fi, src.func.value)[0]  # type: ignore[attr-defined]
                     mn = min(len(w) for w in lang.words)
                     lows.append((f">={mn} (end of `{norm(src)}`)" if mn > 0 else "0", d.stmt, d.node))
+
+                for d in sp.rd.reaching(node, lo.id):
+                    if d.kind not in ("assign", "walrus") or d.value is None or d.node is None or d.index is not None:
+                        raise AnalysisError(f"{fi.loc(call)}: start of the hold-back scan `{lo.id}` is bound by `{d.kind}`: not modelled")
+                    scan_starts(d.value, d)
             else:
                 raise AnalysisError(f"{fi.loc(call)}: start of the hold-back scan `{norm(lo)}` is not modelled")
         else:
@@ -935,6 +1052,48 @@ def rules_splitter(ctx: Ctx, roles: Roles, pats: Patterns, folder: Folder) -> No
                + (f": a delimiter that begins in the skipped prefix is found once complete (payload ends before it) but is not held back while incomplete ({h['anchor'].qualname} answers `end of region` when the region has no line break) "
                   f"(e.g. buffer = line break + first bytes of `--boundary` right after the headers of a body-less part: those bytes are released as payload)" if late else ""),
                fi, call, f"hold-back scan region ({branch})")
+
+
+    # R1.7: what is skipped in front of the payload is deleted with it
+    n17 = 0
+    for it in sp.items:
+        if it["what"] != "deleted prefix" or it["kind"] not in ("HOLD", "TAIL"):
+            continue
+        n17 += 1
+        node, ret, lower = it["node"], it["ret"], it["lower"]
+        rn = sp.cfg.node_of(ret)
+        assert rn is not None
+        ev = sp.ev_open
+        ev.opaque = {}
+        try:
+            a_del = ev.aff(it["value"], node)
+            a_lo = ev.aff(lower, rn) if lower is not None else Aff()
+        except NotAffine as e:
+            raise AnalysisError(f"{fi.loc(ret)}: payload start `{norm(lower) if lower is not None else 0}` is not modelled ({e})")
+        for sym in set(a_del.coef) | set(a_lo.coef):
+            if sym.startswith("name:") and sp.rd.reaching(node, sym[5:]) != sp.rd.reaching(rn, sym[5:]):
+                raise AnalysisError(f"{fi.loc(ret)}: `{sym[5:]}` is rebound between `{norm(it['stmt'])}` and the return: not modelled")
+        try:
+            lb, why = sp.lower_bound(a_del - a_lo, rn, ev)
+        except NotAffine as e:
+            raise AnalysisError(f"{fi.loc(it['stmt'])}: cannot bound `{norm(it['value'])}` against the payload start `{norm(lower) if lower is not None else 0}`: {e}")
+        ok = lb is not None and lb >= 0
+        g = sp.guard_kinds(node)
+        if node is not rn:
+            g2 = sp.guard_kinds(rn)
+            g["unknown"] = g["unknown"] + [u for u in g2["unknown"] if u not in g["unknown"]]
+        unknown = g["unknown"] + call_unknown
+        if not ok and unknown:
+            raise AnalysisError(f"{fi.loc(it['stmt'])}: a deleted prefix that may end before the payload start is guarded by conditions that are not modelled: {unknown}")
+        branch = {None: "any buffer", "present": "boundary text present", "absent": "boundary text absent"}[g["fact"]]
+        lo_txt = norm(lower) if lower is not None else "0"
+        ctx.ob("R1.7", f"{fi.qualname}: when the part continues, everything in front of the returned payload is deleted from the buffer", ok,
+               f"payload = {sp.data}[{lo_txt}:...], deleted prefix = `{norm(it['value'])}` (from `{norm(it['stmt'])}`); deleted - payload start >= "
+               + (f"{lb} for every buffer" if lb is not None else f"? ({why})")
+               + ("" if ok else f": the bytes skipped in front of the payload ({sp.data}[:{lo_txt}], the line break that opens the part body) can stay in the buffer while the decoder "
+                  f"moves on, and are then read again as payload (e.g. the chunk ends right after the blank line of the part headers: the part's data starts with a stray line break)"),
+               fi, it["stmt"], f"deleted prefix covers payload start ({branch}, {'hold-back' if it['kind'] == 'HOLD' else 'whole buffer'})")
+    ctx.floor("R1.7", "deleted prefixes on paths that continue the part", n17, 1)
 
 
 # ---------------------------------------------------------------------------
